@@ -188,7 +188,7 @@ def styles(tier, rng):
     S.append(dict(base, attrs=True, comments=True, ws='wide'))
     S.append(dict(base, ws='dense', decl='joined', pinorder='shuffle'))
     for f in 'hdBHD': S.append(dict(base, constfmt=f, comments=(f in 'hB')))
-    n = 3 if tier == 'quick' else 20
+    n = 3 if tier == 'quick' else 120
     for _ in range(n):
         S.append(dict(decl=rng.choice(['split', 'joined']), order=rng.choice(['source', 'shuffle']), comments=rng.random() < 0.5, attrs=rng.random() < 0.3,
                       pinorder=rng.choice(['decl', 'shuffle']), ws=rng.choice(['normal', 'dense', 'wide']), constfmt=rng.choice('bbhdBHD')))
@@ -403,7 +403,7 @@ def run(tier, seed):
         for sidx, st in enumerate(styles(tier, rng)):
             for bf in (False, True): J.append(('v', (vname, sidx, st, bf, seed)))
     bstyles = [dict(), dict(upper=True, split=True), dict(shuffle=True, comments=True), dict(oneline=True), dict(upper=True, shuffle=True, split=True, comments=True)]
-    for k in range(12 if tier == 'quick' else 120):
+    for k in range(12 if tier == 'quick' else 600):
         J.append(('b', (k, seed, bstyles[k % len(bstyles)])))
     rep = common.pmap(dispatch, J, chunksize=2)
     cov = {
